@@ -581,8 +581,11 @@ impl DcpsDomainParticipant {
                 gap_submessage.writer_id(),
             );
             if let Some(writer_proxy) = dr.transport_reader.matched_writer_lookup(writer_guid) {
-                for seq_num in gap_submessage.gap_start()..gap_submessage.gap_list().base() {
-                    writer_proxy.irrelevant_change_set(seq_num)
+                if gap_submessage.gap_list().base() > gap_submessage.gap_start() {
+                    writer_proxy.irrelevant_change_range_set(
+                        gap_submessage.gap_start(),
+                        gap_submessage.gap_list().base() - 1,
+                    );
                 }
 
                 for seq_num in gap_submessage.gap_list().set() {
